@@ -161,4 +161,20 @@ PROPS = {
         "level_note": "trusted: Lean kernel; harness/check; DeepEqual oracle; creation-time checks are an input (createOk) of the update model",
         "assumptions": ["the mutating webhook re-defaults the object before validation"],
     },
+    "C10": {
+        "prop_files": ["Katib/Props/C10.lean"],
+        "n": {"quick": 6000, "thorough": 200000},
+        "rule": "four generators: (1) experiments (settings, objective, 0-3 parameters with every type/distribution incl. unknown ones, NAS config, budget, early stopping) "
+                "+ settings held by the suggestion, sent through the real SyncAssignments and captured from the fake RPC client; (2) trial lists with strategies, assignments, "
+                "labels, condition lists, times, observations through ConvertTrials; (3) 2-5 sync rounds with scripted settings replies (the status accumulates, the next request "
+                "overlays); (4) reflection over ExperimentSpec: one leaf edited per case (case k = path k mod #paths), the converted request must change unless the path is in the "
+                "consumed-locally allow-list; distinct = distinct op line",
+        "trusted": ["the go/ast enum translator (kvh extract enums)", "proto.Equal / String() of generated proto code", "strconv float formatting and time.Format as oracles"],
+        "modelled": ["ConvertExperiment, ConvertTrials, convert* helpers, convertNasConfig, appendAlgorithmSettingsFromSuggestion, updateAlgorithmSettings as Katib.Conv.*"],
+        "level_text": "Lean theorems: enum tables regenerated from the converter switches are name-matched, injective, round-trip and total up to an allow-list (decide); "
+                      "settings override incl. across rounds (C10_settings_override, C10_settings_rounds), field fidelity (C10_fields, C10_params, C10_nas, C10_trials, "
+                      "C10_last_condition), strategy-selected metric value (C10_metric_value); differential run against the real converters incl. reflection field coverage",
+        "level_note": "trusted: Lean kernel; harness/check; translator; proto3 conflations are part of the statement (absent goal / counts arrive as 0)",
+        "assumptions": ["the four allow-listed spec parts (metric strategies, maxFailedTrialCount, resumePolicy, trial template / collector) are consumed controller-side"],
+    },
 }
